@@ -124,7 +124,8 @@ Definition pure_cert (C : cert) : cert := map (filter pure_fact) C.
 Definition dse_check (f f' : func) : bool :=
   let C := pure_cert (infer true f) in
   dse_check_with true f f' C (dinfer f f' C) || dse_check_with true f f' (empty_cert f) (dinfer f f' (empty_cert f)).
-Definition dse_check_liberal (f f' : func) : bool :=
+Definition dse_check_liberal (f0 f0' : func) : bool :=
+  let f := liberalize f0 in let f' := liberalize f0' in
   let C := pure_cert (infer false f) in
   dse_check_with false f f' C (dinfer f f' C) || dse_check_with false f f' (empty_cert f) (dinfer f f' (empty_cert f)).
 
@@ -146,7 +147,8 @@ Fixpoint dscan_diag (strict : bool) (f : func) (C : cert) (Q : qcert) (asz : Z -
              end
   | _, _ => [k; 5]
   end.
-Definition dse_diag (strict : bool) (f f' : func) : list Z :=
+Definition dse_diag (strict : bool) (f0 f0' : func) : list Z :=
+  let f := if strict then f0 else liberalize f0 in let f' := if strict then f0' else liberalize f0' in
   let C := pure_cert (infer strict f) in
   let Q := dinfer f f' C in
   let asz := asz_of f in
